@@ -1429,7 +1429,10 @@ def const_eval(fn, e, leaf, depth=0):
             return const_eval(fn, ds[0][1], leaf, depth + 1)
         return None
     if k == 'call' and 'opc' not in e:
-        g = is_helper_call(fn, e)
+        g = None
+        if FX is not None and e.get('usr') and (e.get('obj') is None or _is_this_like(e['obj'])):
+            gs_ = [x for x in FX.by_usr(e['usr']) if x.body is not None]       # (also a helper spliced into this view)
+            g = gs_[0] if gs_ and not gs_[0].d.get('virtual') else None
         if g is None or g.body is None:
             return None
         vals = [const_eval(fn, a, leaf, depth + 1) for a in e.get('args', [])]
